@@ -53,13 +53,13 @@ def ln2Series : Nat → Rat
   | 0 => 0
   | n + 1 => ln2Series n + 1 / (((n + 1 : Nat) : Rat) * ((2 ^ (n + 1) : Nat) : Rat))
 
-/-- candidate bounds for ln 2, returned only if the exp-enclosure certifies them:
-`exp a ≤ 2 ≤ exp b` -/
-def ln2Encl (P n : Nat) : Option (Rat × Rat) :=
+/-- candidate bounds for ln 2 from `n` series terms, returned only if the exp-enclosure (Taylor
+with `m` terms) certifies them: `exp a ≤ 2 ≤ exp b` -/
+def ln2Encl (P n m : Nat) : Option (Rat × Rat) :=
   let a := rdown P (ln2Series n)
   let b := rup P (ln2Series n + 1 / ((2 ^ n : Nat) : Rat))
-  if 0 ≤ a && a ≤ 1 && 0 ≤ b && b ≤ 1 && 0 < n &&
-     (expEncl01 a n).2 ≤ 2 && 2 ≤ (expEncl01 b n).1 then some (a, b) else none
+  if 0 ≤ a && a ≤ 1 && 0 ≤ b && b ≤ 1 && 0 < m &&
+     (expEncl01 a m).2 ≤ 2 && 2 ≤ (expEncl01 b m).1 then some (a, b) else none
 
 /-- interval product of a rational with a non-negative interval -/
 def scaleIv (a : Rat) (iv : Rat × Rat) : Rat × Rat :=
@@ -109,6 +109,26 @@ def solEncl (ds : Dataset) (cfg : EvalCfg) (v : N0) (t : Rat) (i : Nat) : Rat ×
 
 /-- enclosure of `(1 − exp(−x))` from an enclosure of `exp(−x)` -/
 def oneMinus (iv : Rat × Rat) : Rat × Rat := (1 - iv.2, 1 - iv.1)
+
+/-- the same with the exponential factors computed once per distinct `k` (what the driver runs) -/
+def factorTable (ds : Dataset) (cfg : EvalCfg) (t : Rat) (ks : List Nat) : List (Nat × (Rat × Rat)) :=
+  ks.map (fun k => (k, decayFactor cfg (get2 ds.rate k 0) t))
+
+def lookupFactor (tbl : List (Nat × (Rat × Rat))) (k : Nat) : Rat × Rat :=
+  match tbl.find? (fun p => p.1 == k) with
+  | some p => p.2
+  | none => (0, 1)
+
+def solEnclT (ds : Dataset) (tbl : List (Nat × (Rat × Rat))) (v : N0) (i : Nat) : Rat × Rat :=
+  (coeffs ds v i).foldl (fun s p => addIv s (scaleIv p.2 (lookupFactor tbl p.1))) (0, 0)
+
+def cumEnclT (ds : Dataset) (tbl : List (Nat × (Rat × Rat))) (v : N0) (i : Nat) : Rat × Rat :=
+  let ri := get2 ds.rate i 0
+  (coeffs ds v i).foldl (fun s p =>
+    let rk := get2 ds.rate p.1 0
+    if rk == 0 then s
+    else addIv s (scaleIv (ri / rk * p.2) (oneMinus (lookupFactor tbl p.1)))) (0, 0)
+
 
 /-- enclosure of the cumulative decays of `i` (radioactive `i`):
 `Σ_k (r_i / r_k) · a_ik · (1 − exp(−r_k ln2 t))` over radioactive `k` (ln 2 cancels) -/
